@@ -423,6 +423,7 @@ def cosim(inst, lean, cov, rng, cycles, runs=1, watch_every=8):
     root = n.snapshot()
     out = []
     for run in range(runs):
+        t_run = time.time()
         n.restore(root)
         lean.open(inst.lean_open)
         prod = HoldingGen(inst)
@@ -471,7 +472,8 @@ def cosim(inst, lean, cov, rng, cycles, runs=1, watch_every=8):
                 out.append(Disagreement(inst, letters[:t + 1], t, impl_outs[t], model_outs[t]))
                 break
         cov.add_instance(inst.name, states=0, transitions=cycles, nontrivial=len(distinct), exhaustive=False, mode="B")
-        cov.instances[-1].update({"stability_checks": stab.checks, "snapshots_watched": watched,
+        cov.instances[-1].update({"wall_s": round(time.time() - t_run, 1),
+                                  "stability_checks": stab.checks, "snapshots_watched": watched,
                                   "max_coop_cycles_to_handshake": maxgap["handshake"],
                                   "max_coop_cycles_to_delivery": maxgap["delivery"],
                                   "K_theorem": inst.k_hs, "K_delivery_theorem": inst.k_del})
